@@ -187,7 +187,11 @@ def replay_h(case, variant, points):
             # directory: exactly the one file the naming rule dictates, or nothing
             want_listing = [os.path.basename(w.file)] if post["exists"] else []
             if o["listing"] != want_listing:
-                return (label + ": directory holds %r, expected %r" % (o["listing"], want_listing), "listing", k, notes)
+                # C05 speaks about the data, not the directory (exact naming is C14's subject): only the presence
+                # of the expected file is demanded here
+                if (os.path.basename(w.file) in o["listing"]) != bool(post["exists"]):
+                    return (label + ": directory holds %r, expected %r" % (o["listing"], want_listing), "listing", k, notes)
+                notes.append("directory holds %r besides the data file" % (o["listing"],))
             if post["exists"]:
                 bad = [p for p in points if o["disk"][p] != want_disk[p]]
                 if bad:
@@ -310,8 +314,8 @@ def replay_s(case, variant):
                 return (label + ": raised %s: %s" % (type(exc).__name__, str(exc)[:300]), "raise", k, notes)
             o = w.observe()
             want = [list(r) for r in post["table"]]
-            if o["listing"] != [os.path.basename(w.data_name)]:
-                return (label + ": directory holds %r" % (o["listing"],), "listing", k, notes)
+            if os.path.basename(w.data_name) not in o["listing"]:
+                return (label + ": directory holds %r, the table file is missing" % (o["listing"],), "listing", k, notes)
             if ev["a"] != "session":
                 n = len(ev["args"][0])
                 before = prev_disk or []
